@@ -21,17 +21,21 @@ def app_program(draw, failures=True, allow_misbehaving=True):
     headers = []
     if draw(st.booleans()):
         headers.append(["Content-Type", "text/plain"])
+    pre = 0
+    if mode in ("file", "bytesio") and draw(st.integers(0, 3)) == 0 and not nobody:
+        prog["write_first"] = True
+        pre = sum(len(c) for c in chunks)
     if mode == "file":
         prog["file_offset"] = draw(st.sampled_from([0, 0, 1, 4096, 69990, 70000, 12345]))
-        prog["file_len"] = draw(st.sampled_from([None, None, 0, 10, 5000]))
-        total = max(0, 70000 - prog["file_offset"])
+        prog["file_len"] = draw(st.sampled_from([None, None, 0, 10, 5000])) if not pre else None
+        total = max(0, 70000 - prog["file_offset"]) + pre
     elif mode == "bytesio":
         prog["bytesio_len"] = draw(st.sampled_from([0, 1, 100, 5000]))
         prog["file_offset"] = draw(st.sampled_from([0, 0, 1, 50]))
         prog["blksize"] = draw(st.sampled_from([8192, 7, 1024]))
         if draw(st.integers(0, 2)) == 0:
             prog["short_reads"] = draw(st.sampled_from([1, 100, 1000]))
-        total = max(0, prog["bytesio_len"] - min(prog["file_offset"] % 6000, prog["bytesio_len"]))
+        total = max(0, prog["bytesio_len"] - min(prog["file_offset"] % 6000, prog["bytesio_len"])) + pre
     else:
         total = sum(len(c) for c in chunks)
     clm = draw(st.sampled_from(["none", "none", "exact", "exact", "smaller", "zero", "larger" if allow_misbehaving else "exact"]))
@@ -96,11 +100,12 @@ def expected_output(prog):
     """-> (full output bytes the application produces, declared Content-Length or None)"""
     from vlib.wenv import FILE_BYTES
     mode = prog.get("mode", "list")
+    first = b"".join(c.encode("latin-1") for c in prog.get("chunks", [])) if prog.get("write_first") else b""
     if mode == "file":
-        out = FILE_BYTES[prog.get("file_offset", 0):]
+        out = first + FILE_BYTES[prog.get("file_offset", 0):]
     elif mode == "bytesio":
         n = prog.get("bytesio_len", 5000)
-        out = FILE_BYTES[:n][prog.get("file_offset", 0) % 6000:]
+        out = first + FILE_BYTES[:n][prog.get("file_offset", 0) % 6000:]
     else:
         out = b"".join(c.encode("latin-1") for c in prog.get("chunks", []))
     cl = None
